@@ -363,7 +363,12 @@ func (u *UpServer) serveStream(raw *vnet.StreamConn, cfg *tls.Config) {
 			break
 		}
 		b := make([]byte, binary.BigEndian.Uint16(h[:]))
-		if _, err := io.ReadFull(c, b); err != nil {
+		if got, err := io.ReadFull(c, b); err != nil {
+			// a frame whose length prefix and every byte that followed are the
+			// release poison: the proxy wrote a buffer it had already released
+			if h[0] == 0xDB && h[1] == 0xDB && got >= 6 && poisonRun(b[:got]) == got {
+				u.S.Fail("C20", "released-memory-on-the-wire", "upstream %s (%s, conn %d) received a frame of %d bytes, prefix included, that consists of the release poison pattern: a buffer was written to the connection after it had been released", u.Spec.Tag, proto, uc.id, got+2)
+			}
 			break
 		}
 		u.handle(b, proto, uc.id, qc, func(r []byte) {
